@@ -136,7 +136,7 @@ def stage_rotation_q(ctx):
     from holopy.core.math import rotation_matrix, rotate_points
     rng = ctx.subrng("rotq")
     exprs, metas = [], []
-    n = ctx.n(150, 2000)
+    n = ctx.n(150, 1500)
     trip = [(t, True) for t in angle_triples(rng, n)] + [(t, False) for t in angle_triples(rng, n // 3, True)]
     for k, (ang, rad) in enumerate(trip):
         if rad and k % 2:
@@ -376,7 +376,7 @@ def stage_conversions(ctx):
     from holopy.core.math import find_transformation_function as ftf
     rng = ctx.subrng("conv")
     goals, metas, tacs = [], [], []
-    npts = ctx.n(90, 1000)
+    npts = ctx.n(90, 800)
     for a in NAMES:
         pts = [GEN[a](rng) for _ in range(npts)]
         arr = np.array(pts).T.copy()          # shape (3, N) as the library's callers pass it
